@@ -311,7 +311,7 @@ where
         unsafe {
             self.vm.root_vm();
             let mut rooted_values = self.vm.rooted_values.write().unwrap();
-            assert!(self.rooted);
+            assert!(!self.rooted);
             self.rooted = true;
             rooted_values.push(self.value.clone_unrooted());
         }
